@@ -104,7 +104,8 @@ def catalogue_for_table(ver):
     for m in gen.catalogue_scalars(ver):
         if m[0] == 'uri' and any(ord(c) < 0x20 for c in m[1]):
             continue
-        if m[0] == 'dt' and m[3] not in ('UTC', 'New_York', 'London', 'Kolkata', 'Brisbane', 'Chatham', 'Lord_Howe'):
+        if m[0] == 'dt' and m[3] not in ('UTC', 'New_York', 'London', 'Kolkata', 'Brisbane', 'Chatham', 'Lord_Howe', 'Port-au-Prince',
+                                           'Ust-Nera', 'GMT+10', 'GMT-14', 'GMT+1', 'DumontDUrville', 'St_Johns'):
             continue
         out.append(m)
     out += [['num', 1000.5, '1_000.5_0'], ['num', 1e3, '1E3'], ['num', 1.5e-7, '15e-8'], ['num', -0.0, '-0'],
